@@ -26,7 +26,7 @@ def generate(ctx):
     ops = [ao.op_getitem_int, ao.op_getitem_slice, ao.op_getitem_slice, ao.op_getitem_mask, ao.op_getitem_idx, ao.op_take,
            ao.op_take, ao.op_concat, ao.op_simple, ao.op_iterate, ao.op_setitem, ao.op_setitem, ao.op_setitem,
            lambda r, i: ao.op_setitem(r, i, malformed=True), lambda r, i: ao.op_setitem(r, i, via_series=True),
-           lambda r, i: ao.op_setitem(r, i, force_multi=True)]
+           lambda r, i: ao.op_setitem(r, i, force_multi=True), lambda r, i: ao.op_getitem_idx(r, i, force="zeros")]
     for i in range(n):
         corner = {0: "zero_rows", 1: "all_missing", 2: "all_empty"}.get(i % 50)
         recipe = LAYOUTS[i % len(LAYOUTS)] if i < 2 * len(LAYOUTS) else None
